@@ -29,14 +29,28 @@ type reflOuter struct {
 	C string
 }
 
+// element types whose encoding is empty (like the library's own field-less messages): a slice of them is a bare count
+type reflEmpty struct{}
+type reflBatch struct {
+	A uint32
+	B []reflEmpty
+	C uint16
+}
+
 var reflKinds = map[string]reflect.Type{
 	"u64s":   reflect.TypeOf([]uint64(nil)),
 	"strs":   reflect.TypeOf([]string(nil)),
 	"recs":   reflect.TypeOf([]reflRec(nil)),
 	"nested": reflect.TypeOf([][]uint16(nil)),
 	"rec":    reflect.TypeOf(reflOuter{}),
+	"units":  reflect.TypeOf([]reflEmpty(nil)),
+	"batch":  reflect.TypeOf(reflBatch{}),
 }
-var reflKindNames = []string{"u64s", "strs", "recs", "nested", "rec"}
+var reflKindNames = []string{"u64s", "strs", "recs", "nested", "rec", "units", "batch"}
+
+// kinds with zero-width elements: the count is bounded by nothing but the reader's patience (and the model's
+// memory), so damaged counts are kept below 256 and the hostile-count block is skipped
+var reflZeroWidth = map[string]int{"units": 0, "batch": 4} // offset of the count
 
 // reflTokens prints v in the token syntax of the model; full=true prints slices up to their capacity
 // (the whole backing array), which is what must not change when a decode fails.
@@ -227,10 +241,26 @@ func (e *codecEngine) reflectiveCases(c *Ctx, g *codecGen, cfg string) {
 				if pos < 4 && b[0] != 0 && kind != "rec" {
 					b[0] = 0 // a count of 2^24 and more cannot be followed by that many elements here: keep those for the hostile block
 				}
+				if off, zw := reflZeroWidth[kind]; zw && len(b) >= off+4 {
+					b[off], b[off+1], b[off+2] = 0, 0, 0
+				}
 				c.Do("rfl " + kind + " x" + hex.EncodeToString(b))
 				o := c.Do("rflinto " + kind + " " + strings.Join(pre, " ") + " | x" + hex.EncodeToString(b))
 				c.R.Hit("rflinto:" + strings.Fields(o)[0])
 			}
+		}
+		if _, zw := reflZeroWidth[kind]; zw {
+			// more elements than bytes left is legitimate here
+			for _, raw := range [][]byte{{0, 0, 0, 3}, {0, 0, 0, 200}, {0, 0, 0, 5, 9}} {
+				if kind == "batch" {
+					raw = append(append([]byte{0, 0, 0, 7}, raw...), 0, 1)
+				}
+				c.Case(cfg)
+				o := c.Do("rfl " + kind + " x" + hex.EncodeToString(raw))
+				c.R.Hit("rfl-zero-width:" + strings.Fields(o)[0])
+				c.R.Nontrivial()
+			}
+			continue
 		}
 		// hostile counts: a few bytes announcing up to 2^31 elements
 		for _, hdr := range [][]byte{{0, 1, 0, 0}, {0, 0x10, 0, 0}, {0x04, 0, 0, 0}, {0x7f, 0xff, 0xff, 0xff}, {0xff, 0xff, 0xff, 0xff}} {
